@@ -558,6 +558,24 @@ impl Property for C08Prop {
                 }
             }
         }
+        // route 1b: a negative left operand written without parentheses, `-2 ** 2`: the prefix minus binds
+        // tighter than every infix operator, so this is the same operation on the same operands
+        if args.len() == 2 {
+            let bare = match (&args[0], &args[1]) {
+                (Variable::Int(a), Variable::Int(b)) if *a < 0 && *a != i64::MIN => Some(format!("-{} {op} {}", -(*a as i128), lit_int(*b))),
+                (Variable::Float(a), Variable::Float(b)) if a.is_sign_negative() && a.is_finite() => Some(format!("-{:?} {op} {}", -a, lit_float(*b))),
+                _ => None,
+            };
+            if let Some(text) = bare {
+                for text in [text.clone(), text.replace(' ', "")] {
+                    stats.eval();
+                    let o = run::run_text(&text, false);
+                    if !outcome_matches(&o, &expected, true) {
+                        return fail(format!("C08:{kind}:{op}:bare-negative"), format!("`{text}`: expected {}, got {}", expected.show(), o.short()));
+                    }
+                }
+            }
+        }
         // routes 3d: both operands are one and the same variable (rewriting `x == x` to true, `x - x`
         // to 0 or `x / x` to 1 is wrong for NaN, infinities and zero)
         if args.len() == 2 {
